@@ -17,7 +17,9 @@ namespace Kmip.CliDrain
 open Kmip.CliLts Kmip.CliConn
 
 def allRP : List RP := [.r0, .r1, .r2c, .r2s, .rtA1, .rtA2, .rtB, .rEnd]
-def allWP : List WP := [.wc, .ws, .w1c, .w1s, .w2cr, .w2cf, .w2sr, .w2sf, .wtA1, .wtA2, .wtB, .wEnd]
+def allWP : List WP :=
+  [.wc, .ws, .w1c, .w1s, .w2cr, .w2cf, .w2sr, .w2sf, .wtA1, .wtA2, .wtB, .wEnd,
+   .wnAcr, .wnAcf, .wnAsr, .wnAsf, .wnBcr, .wnBcf, .wnBsr, .wnBsf]
 def allCP : List CP := [.c0, .ctA, .ctB]
 def bools : List Bool := [false, true]
 
@@ -42,7 +44,7 @@ def stepSome (p : Params) (s : St) : List St :=
   -- environment while the stream is open: a (stale) message arrives; a write completes; faults
   ++ (if !s.netClosed ∧ s.rp = .r1 then [{ s with rp := .r2s }, { s with rp := .rtA1 }, { s with rp := .rtA2 }] else [])
   ++ (if !s.netClosed ∧ (s.wp = .w1c ∨ s.wp = .w1s) then
-        [{ s with wp := .wc }, { s with wp := .w2sr }, { s with wp := .w2sf }] else [])
+        [{ s with wp := .wc }, { s with wp := sendFailed p false 1 }, { s with wp := sendFailed p false 2 }] else [])
 
 def step (p : Params) : Option St → List (Option St)
   | none => (starts.filter handoffOk).map fun t => some (norm p t)
